@@ -13,3 +13,31 @@ func init() {
 		},
 	})
 }
+
+func init() {
+	register(propSpec{
+		ID: "C01",
+		Explanation: "Whole-program equivalence of source and compiled generator is not decidable here; decided are the structural facts it rests on, for every path of the code that implements them: RW.KINDTAB (combine / implicit-Normal / yield-freeness decision tables of the block abstraction vs the wording of the property), RW.BRANCHCTX (the break/continue pass driven over every nesting of native contexts up to depth 3 vs the Go spec's target rule), RW.TERM (termination checker vs an independent reference of the spec's 'terminating statements' on ~2000 enumerated shapes: never over-approximates), RW.TMPL.FOR (choice of Loop/While/For and argument roles), RW.SCOPEAGREE (the lowering of every break/continue target agrees with the signal tables extracted from the runtime), and the runtime tables of C08 (SEQ.ROLE/COMBINE/FOR/DELAY/SUSPEND).",
+		Trusted: []string{"Go semantics of closures", "go/ssa construction", "go/ast grammar facts"},
+		Run: func(c *Ctx) {
+			r := newRwRT(c)
+			c.guard("RW.KINDTAB", r.ruleKindTab)
+			c.guard("RW.BRANCHCTX", r.ruleBranchCtx)
+			c.guard("RW.TERM", r.ruleTerm)
+			s := newSeqRT(c)
+			c.guard("SEQ.ROLE", func() { s.ruleRole() })
+			c.guard("SEQ.COMBINE", s.ruleCombine)
+			c.guard("SEQ.DELAY", s.ruleDelay)
+			c.guard("SEQ.SUSPEND", s.ruleSuspend)
+			c.guard("SEQ.FOR", s.ruleFor)
+			forOK := true
+			for _, o := range c.Obls {
+				if o.Rule == "SEQ.FOR" && o.Status != OK {
+					forOK = false
+				}
+			}
+			c.guard("RW.SCOPEAGREE", func() { r.ruleScopeAgree(forOK) })
+			c.guard("RW.TMPL.FOR", r.ruleTmplFor)
+		},
+	})
+}
